@@ -55,6 +55,73 @@ var carryTable = map[string]struct {
 	"dec.divBasic/add10VW":         {1, "add-back: the carry into u[j+n] cancels the borrow of the preceding subtraction; the one-word add wraps modulo the base by design"},
 }
 
+// carryShapeOK recognises the two shapes of a discarded result that are accepted wherever they
+// occur (so that moving the code into or out of a helper changes nothing):
+//
+//	(P) in-place propagation  k10VW(s, s, c)  where c is the carry/borrow result of another
+//	    kernel call: the carry of a preceding vector operation is pushed into the rest of the same
+//	    buffer, which the caller sized for the full result;
+//	(D) in-place decrement/increment by the constant 1  k10VW(s, s, 1)  (q̂-- in the division).
+//
+// Everything else (a dropped primary carry of a VV kernel, a VW whose source and destination
+// differ, a scalar that is not a carry) stays subject to the per-function table.
+func carryShapeOK(m *model.Model, call *ssa.Call) string {
+	cal := call.Call.StaticCallee()
+	if cal == nil || !strings.HasSuffix(cal.Name(), "VW") || len(call.Call.Args) != 3 {
+		return ""
+	}
+	if !sameSliceExpr(call.Call.Args[0], call.Call.Args[1]) {
+		return ""
+	}
+	y := stripConv(call.Call.Args[2])
+	if k, ok := model.ConstInt(y); ok && k == 1 {
+		return "in-place ±1"
+	}
+	var isCarry func(v ssa.Value, d int) bool
+	isCarry = func(v ssa.Value, d int) bool {
+		if d == 0 {
+			return false
+		}
+		switch x := stripConv(v).(type) {
+		case *ssa.Call:
+			c2 := x.Call.StaticCallee()
+			return c2 != nil && m.InDecimalPkg(c2) && carryKernels[c2.Name()]
+		case *ssa.Phi:
+			for _, e := range x.Edges {
+				if !isCarry(e, d-1) {
+					return false
+				}
+			}
+			return true
+		}
+		return false
+	}
+	if isCarry(y, 4) {
+		return "in-place propagation of a kernel's carry"
+	}
+	return ""
+}
+
+// sameSliceExpr: a and b start at the same element of the same buffer (their lengths may differ).
+func sameSliceExpr(a, b ssa.Value) bool {
+	a, b = stripConv(a), stripConv(b)
+	if a == b {
+		return true
+	}
+	sa, ok1 := a.(*ssa.Slice)
+	sb, ok2 := b.(*ssa.Slice)
+	if !ok1 || !ok2 || sa.X != sb.X {
+		return false
+	}
+	eq := func(x, y ssa.Value) bool {
+		if x == nil || y == nil {
+			return x == nil && y == nil
+		}
+		return structEq(x, y, 5)
+	}
+	return eq(sa.Low, sb.Low)
+}
+
 func liveReferrers(m *model.Model, v ssa.Value) int {
 	if v.Referrers() == nil {
 		return 0
@@ -75,6 +142,7 @@ func liveReferrers(m *model.Model, v ssa.Value) int {
 func runCarry(m *model.Model, s *ob.Set) {
 	const R = "CARRY"
 	disc := map[string][]string{}
+	shaped := map[string][]string{}
 	used := map[string]int{}
 	for _, fn := range m.Funcs {
 		if !m.InDecimalPkg(fn) || inKernelLayer(m, fn) {
@@ -96,6 +164,10 @@ func runCarry(m *model.Model, s *ob.Set) {
 				}
 				key := m.FuncName(fn) + "/" + cal.Name()
 				if liveReferrers(m, call) == 0 {
+					if why := carryShapeOK(m, call); why != "" {
+						shaped[key] = append(shaped[key], why)
+						continue
+					}
 					disc[key] = append(disc[key], m.InstrPos(call))
 				} else {
 					used[key]++
@@ -110,6 +182,9 @@ func runCarry(m *model.Model, s *ob.Set) {
 	for k := range used {
 		keys[k] = true
 	}
+	for k := range shaped {
+		keys[k] = true
+	}
 	var ks []string
 	for k := range keys {
 		ks = append(ks, k)
@@ -119,6 +194,8 @@ func runCarry(m *model.Model, s *ob.Set) {
 		d := disc[k]
 		t, tabled := carryTable[k]
 		switch {
+		case len(d) == 0 && len(shaped[k]) > 0:
+			s.Ok(R, k, "-", fmt.Sprintf("%d call(s) consumed; %d discard(s) of an in-place propagation/decrement (%s)", used[k], len(shaped[k]), shaped[k][0]))
 		case len(d) == 0:
 			s.Ok(R, k, "-", fmt.Sprintf("%d call(s), every result consumed", used[k]))
 		case tabled && len(d) <= t.n:
